@@ -312,8 +312,10 @@ where
         Rc<K>: Borrow<Q>,
         Q: Hash + Eq + ?Sized,
     {
+        // Only expired entries are purged here; they are invisible anyway. A pending size
+        // eviction is left to the operations that change the cache, so that merely asking
+        // whether a key is present never decides which entry gets evicted.
         let timestamp = self.evict_expired_if_needed();
-        self.evict_lru_entries();
 
         match (self.cache.get(key), timestamp) {
             // Value not found.
